@@ -61,10 +61,20 @@ def _run_twin(case, mode):
     status = "ok"
     from photon_weave.photon_weave import Config
 
+    truncated = set()
     for i, st_ in enumerate(case["steps"]):
         if mode == "toggle" and i == case.get("toggle_at", 0):
             Config().set_contraction(False)
         SAMPLER.reset()
+        if st_["k"] in ("op", "resize"):
+            # any operation may re-size the Fock spaces it addresses, and the size chosen can differ
+            # between twins by numerical noise in the occupation test
+            truncated.update(t_ for t_ in (st_.get("targets") or [st_.get("target")]) if t_ and t_.endswith(".f") or (t_ or "").startswith("b"))
+        sized = (st_["k"] == "op" and st_["op"]["type"] == "fock:Custom") or st_["k"] in ("kraus", "povm")
+        if sized and any(t_ in truncated for t_ in st_.get("targets", [])):
+            # a user-sized operator would be built for whatever cut-off this twin happened to choose
+            trace.append(("skip", "sized operator after truncating operation"))
+            continue
         try:
             m.step(st_)
         except Inapplicable as e:
